@@ -171,6 +171,11 @@ func init() {
 	intrinsics[hpkg+"vIteInt"] = func(in *Interp, fr *frame, call *ssa.CallCommon, args []Value) Value {
 		return in.Ctx.Ite(term(args[0]), term(args[1]), term(args[2]))
 	}
+	intrinsics[hpkg+"vRenderText"] = func(in *Interp, fr *frame, call *ssa.CallCommon, args []Value) Value {
+		on := term(args[0]).IsTrue()
+		in.renderInts, in.renderJSON = on, on
+		return nil
+	}
 	intrinsics[hpkg+"vTier"] = func(in *Interp, fr *frame, call *ssa.CallCommon, args []Value) Value {
 		return in.Ctx.BV(64, uint64(in.P.Tier))
 	}
@@ -276,13 +281,6 @@ func init() {
 		return nil
 	}
 	intrinsics["sort.Slice"] = modelSortSlice
-	intrinsics["strconv.Itoa"] = func(in *Interp, fr *frame, call *ssa.CallCommon, args []Value) Value {
-		t := term(args[0])
-		if t.IsConst() {
-			return Str{S: strconv.Itoa(int(t.Int()))}
-		}
-		return Str{Opq: &Opaque{What: "decimal of symbolic int", NotNilWord: true}}
-	}
 	intrinsics["strconv.Atoi"] = func(in *Interp, fr *frame, call *ssa.CallCommon, args []Value) Value {
 		s := args[0].(Str)
 		if s.Opq != nil {
@@ -593,6 +591,9 @@ func (in *Interp) fmtVerb(verb byte, a Iface) Str {
 				}
 				return Str{S: strconv.FormatUint(v.Val, 10)}
 			}
+		}
+		if w, signed, ok := intInfo(a.T); ok && w > 0 && (verb == 'v' || verb == 'd') && in.renderInts {
+			return in.decimalOf(v, signed)
 		}
 		return opq("formatted symbolic scalar", true)
 	case *Value:
